@@ -19,7 +19,7 @@ Lemma opt_eqb_refl o : opt_eqb Z.eqb o o = true.
 Proof. destruct o; cbn; [apply Z.eqb_refl | reflexivity]. Qed.
 Lemma st_eqb_refl a : st_eqb a a = true.
 Proof.
-  unfold st_eqb. rewrite !Z.eqb_refl, pair_eqb_refl, !opt_eqb_refl.
+  unfold st_eqb. rewrite !Z.eqb_refl, pair_eqb_refl, !opt_eqb_refl, Nat.eqb_refl.
   rewrite !(list_eqb_refl Z.eqb Z.eqb_refl), (list_eqb_refl pair_eqb pair_eqb_refl). reflexivity.
 Qed.
 
@@ -29,8 +29,9 @@ Section Main.
   Variable fac_value mdef_value : Z.
   Variable adapt_value : nat -> Z -> Z.
   Variable ydef_value : Z.
-  Notation stp := (step vld getter_c fac_value mdef_value adapt_value ydef_value).
-  Notation frd := (fired vld getter_c fac_value mdef_value adapt_value ydef_value).
+  Variable fcalls : nat -> nat.
+  Notation stp := (step vld getter_c fac_value mdef_value adapt_value ydef_value fcalls).
+  Notation frd := (fired vld getter_c fac_value mdef_value adapt_value ydef_value fcalls).
 
   (* ---- the deciding primitives under a call fault ------------------------------- *)
   Lemma call_vld_cases k e n v :
@@ -152,6 +153,17 @@ Section Main.
       destruct chain as [n|]; [|right; split; reflexivity].
       destruct (call_chain_cases k e n 0) as [[H1 H2]|[H1 H2]]; rewrite H1, H2, ?call_chain_nofault; [left | right]; split; reflexivity.
     - (* SetXQ *) destruct (call_vld_cases k e 0 v) as [[H1 H2]|[H1 H2]]; rewrite H1, H2; [left | right]; split; reflexivity.
+    - (* ObsAdd *)
+      destruct (call_chain_cases k e (fcalls (length (zz s0))) 0) as [[H1 H2]|[H1 H2]];
+        rewrite H1, H2, ?call_chain_nofault; [left | right]; split; reflexivity.
+    - (* ObsRemove *)
+      destruct (oreg s0); [right; split; reflexivity|].
+      destruct (call_chain_cases k e (fcalls (length (zz s0))) 0) as [[H1 H2]|[H1 H2]];
+        rewrite H1, H2, ?call_chain_nofault; [left | right]; split; reflexivity.
+    - (* AddZ *) right; split; reflexivity.
+    - (* SetZ *) right; split; reflexivity.
+    - (* SetAdE *)
+      destruct (call_chain_cases k e chain 0) as [[H1 H2]|[H1 H2]]; rewrite H1, H2, ?call_chain_nofault; [left | right]; split; reflexivity.
     - (* Opaque *) right; split; reflexivity.
   Qed.
 
@@ -170,49 +182,50 @@ Section Main.
              end; eauto.
   Qed.
 
-  (* a fault-free operation raises TraitError only *)
-  Theorem step_nofault_raises_traiterror s0 o s1 e lg : stp NoFault s0 o = (s1, Raise e, lg) -> e = TraitError.
+  (* a fault-free operation raises TraitError only (or NotifierNotFound, for a removal with nothing registered) *)
+  Definition natural (e : exn) : Prop := e = TraitError \/ e = NotifierNotFound.
+  Theorem step_nofault_raises_natural s0 o s1 e lg : stp NoFault s0 o = (s1, Raise e, lg) -> natural e.
   Proof.
-    assert (Hd : forall sa lg0, done sa lg0 = (s1, Raise e, lg) -> e = TraitError) by (unfold done; discriminate).
-    assert (Hl : forall new a b, list_commit NoFault s0 new a b = (s1, Raise e, lg) -> e = TraitError).
+    assert (Hd : forall sa lg0, done sa lg0 = (s1, Raise e, lg) -> natural e) by (unfold done; discriminate).
+    assert (Hl : forall new a b, list_commit NoFault s0 new a b = (s1, Raise e, lg) -> natural e).
     { unfold list_commit. intros new a b. destruct (_ && _); apply Hd. }
     assert (Hr : forall e0 sa, raise e0 sa = (s1, Raise e, lg) -> e0 = e).
     { unfold raise. intros e0 sa H. injection H as _ <- _. reflexivity. }
     destruct o; cbn [step].
     - destruct (call_vld vld NoFault 0 v) as [y|e0] eqn:E;
-        [| intros H; apply Hr in H; subst e0; eapply call_vld_nofault; exact E].
+        [| intros H; apply Hr in H; subst e0; left; eapply call_vld_nofault; exact E].
       destruct (Z.eqb y (x s0)); apply Hd.
     - destruct (call_vld vld NoFault 0 a) as [a'|e0] eqn:E;
-        [| intros H; apply Hr in H; subst e0; eapply call_vld_nofault; exact E].
+        [| intros H; apply Hr in H; subst e0; left; eapply call_vld_nofault; exact E].
       destruct (call_vld vld NoFault 1 b) as [b'|e1] eqn:E1;
-        [apply Hd | intros H; apply Hr in H; subst e1; eapply call_vld_nofault; exact E1].
+        [apply Hd | intros H; apply Hr in H; subst e1; left; eapply call_vld_nofault; exact E1].
     - destruct (vld_items vld NoFault 0 vs) as [ys|e0] eqn:E;
-        [apply Hd | intros H; apply Hr in H; subst e0; eapply vld_items_nofault; exact E].
+        [apply Hd | intros H; apply Hr in H; subst e0; left; eapply vld_items_nofault; exact E].
     - destruct (call_vld vld NoFault 0 v) as [y|e0] eqn:E;
-        [apply Hl | intros H; apply Hr in H; subst e0; eapply call_vld_nofault; exact E].
+        [apply Hl | intros H; apply Hr in H; subst e0; left; eapply call_vld_nofault; exact E].
     - destruct (vld_items vld NoFault 0 vs) as [ys|e0] eqn:E;
-        [apply Hl | intros H; apply Hr in H; subst e0; eapply vld_items_nofault; exact E].
+        [apply Hl | intros H; apply Hr in H; subst e0; left; eapply vld_items_nofault; exact E].
     - destruct (vld_items vld NoFault 0 vs) as [ys|e0] eqn:E;
-        [apply Hl | intros H; apply Hr in H; subst e0; eapply vld_items_nofault; exact E].
+        [apply Hl | intros H; apply Hr in H; subst e0; left; eapply vld_items_nofault; exact E].
     - destruct (call_vld vld NoFault 0 v) as [y|e0] eqn:E;
-        [apply Hl | intros H; apply Hr in H; subst e0; eapply call_vld_nofault; exact E].
+        [apply Hl | intros H; apply Hr in H; subst e0; left; eapply call_vld_nofault; exact E].
     - destruct (vld_items vld NoFault 0 vs) as [ys|e0] eqn:E;
-        [apply Hl | intros H; apply Hr in H; subst e0; eapply vld_items_nofault; exact E].
+        [apply Hl | intros H; apply Hr in H; subst e0; left; eapply vld_items_nofault; exact E].
     - destruct (vld_pairs vld NoFault 0 kvs) as [ys|e0] eqn:E;
-        [apply Hd | intros H; apply Hr in H; subst e0; eapply vld_pairs_nofault; exact E].
+        [apply Hd | intros H; apply Hr in H; subst e0; left; eapply vld_pairs_nofault; exact E].
     - destruct (vld_pairs vld NoFault 0 [(k, v)]) as [ys|e0] eqn:E;
-        [apply Hd | intros H; apply Hr in H; subst e0; eapply vld_pairs_nofault; exact E].
+        [apply Hd | intros H; apply Hr in H; subst e0; left; eapply vld_pairs_nofault; exact E].
     - destruct (vld_pairs vld NoFault 0 kvs) as [ys|e0] eqn:E;
-        [apply Hd | intros H; apply Hr in H; subst e0; eapply vld_pairs_nofault; exact E].
+        [apply Hd | intros H; apply Hr in H; subst e0; left; eapply vld_pairs_nofault; exact E].
     - destruct (dlookup k (d s0)); [apply Hd|].
       destruct (vld_pairs vld NoFault 0 [(k, v)]) as [ys|e0] eqn:E;
-        [apply Hd | intros H; apply Hr in H; subst e0; eapply vld_pairs_nofault; exact E].
+        [apply Hd | intros H; apply Hr in H; subst e0; left; eapply vld_pairs_nofault; exact E].
     - destruct (vld_items vld NoFault 0 vs) as [ys|e0] eqn:E;
-        [apply Hd | intros H; apply Hr in H; subst e0; eapply vld_items_nofault; exact E].
+        [apply Hd | intros H; apply Hr in H; subst e0; left; eapply vld_items_nofault; exact E].
     - destruct (call_vld vld NoFault 0 v) as [y|e0] eqn:E;
-        [apply Hd | intros H; apply Hr in H; subst e0; eapply call_vld_nofault; exact E].
+        [apply Hd | intros H; apply Hr in H; subst e0; left; eapply call_vld_nofault; exact E].
     - destruct (vld_items vld NoFault 0 vs) as [ys|e0] eqn:E;
-        [apply Hd | intros H; apply Hr in H; subst e0; eapply vld_items_nofault; exact E].
+        [apply Hd | intros H; apply Hr in H; subst e0; left; eapply vld_items_nofault; exact E].
     - destruct (f s0); apply Hd.
     - destruct (m s0); apply Hd.
     - apply Hd.
@@ -220,21 +233,27 @@ Section Main.
     - destruct (c s0); apply Hd.
     - rewrite call_chain_nofault. apply Hd.
     - destruct (vld_items vld NoFault 0 (diff vs (inter (s s0) vs))) as [ys|e0] eqn:E;
-        [apply Hd | intros H; apply Hr in H; subst e0; eapply vld_items_nofault; exact E].
+        [apply Hd | intros H; apply Hr in H; subst e0; left; eapply vld_items_nofault; exact E].
     - destruct (vld_items vld NoFault 0 (diff vs (inter (s s0) vs))) as [ys|e0] eqn:E;
-        [apply Hd | intros H; apply Hr in H; subst e0; eapply vld_items_nofault; exact E].
+        [apply Hd | intros H; apply Hr in H; subst e0; left; eapply vld_items_nofault; exact E].
     - destruct (call_vld vld NoFault 0 v) as [v'|e0] eqn:E;
-        [| intros H; apply Hr in H; subst e0; eapply call_vld_nofault; exact E].
+        [| intros H; apply Hr in H; subst e0; left; eapply call_vld_nofault; exact E].
       destruct (y s0) as [old|]; [destruct (Z.eqb v' old); apply Hd|].
       cbn [call_plain call_fault].
       destruct (call_vld vld NoFault 2 ydef_value) as [dv|e1] eqn:E1;
-        [destruct (Z.eqb v' dv); apply Hd | intros H; apply Hr in H; subst e1; eapply call_vld_nofault; exact E1].
+        [destruct (Z.eqb v' dv); apply Hd | intros H; apply Hr in H; subst e1; left; eapply call_vld_nofault; exact E1].
     - destruct (y s0); [apply Hd|]. cbn [call_plain call_fault].
       destruct (call_vld vld NoFault 1 ydef_value) as [dv|e1] eqn:E1;
-        [apply Hd | intros H; apply Hr in H; subst e1; eapply call_vld_nofault; exact E1].
+        [apply Hd | intros H; apply Hr in H; subst e1; left; eapply call_vld_nofault; exact E1].
     - destruct chain as [n|]; [rewrite call_chain_nofault|]; apply Hd.
     - destruct (call_vld vld NoFault 0 v) as [y|e0] eqn:E;
-        [apply Hd | intros H; apply Hr in H; subst e0; eapply call_vld_nofault; exact E].
+        [apply Hd | intros H; apply Hr in H; subst e0; left; eapply call_vld_nofault; exact E].
+    - (* ObsAdd *) rewrite call_chain_nofault. apply Hd.
+    - (* ObsRemove *) destruct (oreg s0); [intros H; apply Hr in H; subst e; right; reflexivity|].
+      rewrite call_chain_nofault. apply Hd.
+    - (* AddZ *) apply Hd.
+    - (* SetZ *) destruct (length (zz s0)); [apply Hd|]. destruct (Z.eqb _ _); apply Hd.
+    - (* SetAdE *) rewrite call_chain_nofault. apply Hd.
     - apply Hd.
   Qed.
 
@@ -310,7 +329,7 @@ Section Main.
     cbn. rewrite st_eqb_refl. reflexivity.
   Qed.
 
-  Notation run2' := (run2 vld getter_c fac_value mdef_value adapt_value ydef_value).
+  Notation run2' := (run2 vld getter_c fac_value mdef_value adapt_value ydef_value fcalls).
 
   Theorem run2_law : forall h s0 i, law_hist i s0 (run2' s0 s0 h) = [].
   Proof.
@@ -344,7 +363,7 @@ Section Main.
       + (* not reached: the operation is the fault-free one, on both objects *)
         destruct (stp NoFault s0 o) as [[s1 out] lg] eqn:E.
         assert (Hf : match out with Raise OtherError => true | _ => false end = false).
-        { destruct out as [|e']; [reflexivity|]. apply step_nofault_raises_traiterror in E. subst e'. reflexivity. }
+        { destruct out as [|e']; [reflexivity|]. apply step_nofault_raises_natural in E. destruct E; subst e'; reflexivity. }
         rewrite Hf. cbn [law_hist]. rewrite law_step_ok; cbn [o_out o_st o_log o_reg o_aux app map negb orb].
         * apply IH.
         * eapply clause1_of_step; exact E.
@@ -372,12 +391,12 @@ Section Main.
 
   (* Prop readings *)
   Theorem deciding_fault_inert k e s0 o s1 e' lg :
-    stp (FaultCall k e) s0 o = (s1, Raise e', lg) -> s1 = s0 /\ lg = [] /\ (e' = e \/ e' = TraitError).
+    stp (FaultCall k e) s0 o = (s1, Raise e', lg) -> s1 = s0 /\ lg = [] /\ (e' = e \/ natural e').
   Proof.
     intros H. pose proof (step_raise_inert _ _ _ _ _ _ H) as [-> ->]. split; [reflexivity|]. split; [reflexivity|].
     destruct (step_fault_call k e s0 o) as [[_ H2]|[_ H2]]; rewrite H2 in H.
     - injection H as <-. left. reflexivity.
-    - right. eapply step_nofault_raises_traiterror. exact H.
+    - right. eapply step_nofault_raises_natural. exact H.
   Qed.
 
   Theorem deciding_fault_reached_raises k e s0 o :
@@ -385,7 +404,7 @@ Section Main.
   Proof.
     cbn [fired]. destruct (step_fault_call k e s0 o) as [[H1 H2]|[H1 H2]]; rewrite H1; [intros _; exact H2|].
     destruct (stp NoFault s0 o) as [[s1 out] lg] eqn:E. destruct out as [|e']; [discriminate|].
-    apply step_nofault_raises_traiterror in E. subst e'. discriminate.
+    apply step_nofault_raises_natural in E. destruct E; subst e'; discriminate.
   Qed.
 
   Theorem handler_fault_complete j e s0 o :
@@ -412,7 +431,7 @@ Section Main.
       + intros Hin. eapply Hsame; [exact Hin | reflexivity].
       + destruct (stp NoFault a o) as [[a1 out] lg] eqn:E.
         assert (Hf : match out with Raise OtherError => true | _ => false end = false).
-        { destruct out as [|e']; [reflexivity|]. apply step_nofault_raises_traiterror in E. subst e'. reflexivity. }
+        { destruct out as [|e']; [reflexivity|]. apply step_nofault_raises_natural in E. destruct E; subst e'; reflexivity. }
         rewrite Hf. intros Hin. eapply Hsame; [exact Hin | reflexivity].
     - revert Hin. rewrite step_fault_handler. destruct (stp NoFault a o) as [[a1 out] lg]. cbn [fst snd].
       intros Hin. eapply Hsame; [exact Hin | reflexivity].
